@@ -7,6 +7,7 @@ use crate::engine::{self, Item, Report, RunOpts, Sink};
 use crate::corpus;
 
 pub mod apps;
+pub mod c01;
 pub mod c02;
 pub mod c03;
 pub mod c04;
@@ -23,6 +24,7 @@ pub fn run(prop: &str, thorough: bool) -> Option<Report> {
     let tier = if thorough { "thorough" } else { "quick" };
     let mut rep = Report::new(prop, tier);
     match prop {
+        "C01" => c01::run(&mut rep, thorough),
         "C02" => c02::run(&mut rep, thorough),
         "C03" => c03::run(&mut rep, thorough),
         "C04" => c04::run(&mut rep, thorough),
